@@ -14,7 +14,9 @@ RULE = ('random programs over one EventDispatcher (30 %: a real desper.World use
         'script of 1-3 actions (add/remove/dispatch/raise/disable/enable/clear) so that an '
         'exception, a nested disable or a nested enable hits every delivery position of the '
         'release; 15 % of the dispatches made while disabled have no listener (left open by '
-        'the property); a case that does not return within 1 s is a hang observation; '
+        'the property); 13 argument shapes: none, positional only, keyword only (the token then '
+        'travels as a keyword: zero positionals), both, values None/0/\'\'/tuples; a case that '
+        'does not return within 1 s is a hang observation; '
         'non-trivial = at least two callbacks delivered by an enabling assignment and one '
         'action executed inside a release')
 TRUSTED = [
